@@ -428,6 +428,20 @@ constexpr MagRepresentationOrError<T> root(T x, std::uintmax_t n) {
     return {MagRepresentationOutcome::OK, static_cast<T>(lo_diff < hi_diff ? lo : hi)};
 }
 
+// Check whether an (integral) base can be converted to the (integral) widened type unchanged.
+template <typename W,
+          typename B,
+          bool BothIntegral = (std::is_integral<W>::value && std::is_integral<B>::value)>
+struct BaseFitsInWidenedType {
+    static constexpr bool check(B) { return true; }
+};
+template <typename W, typename B>
+struct BaseFitsInWidenedType<W, B, true> {
+    static constexpr bool check(B base) {
+        return stdx::cmp_less_equal(base, std::numeric_limits<W>::max());
+    }
+};
+
 template <typename T, std::intmax_t N, std::uintmax_t D, typename B>
 constexpr MagRepresentationOrError<Widen<T>> base_power_value(B base) {
     if (N < 0) {
@@ -439,6 +453,12 @@ constexpr MagRepresentationOrError<Widen<T>> base_power_value(B base) {
             MagRepresentationOutcome::OK,
             Widen<T>{1} / inverse_result.value,
         };
+    }
+
+    // The base itself must fit in the widened type: otherwise the cast below would silently produce
+    // a different number (e.g. a large prime turning negative in `std::intmax_t`).
+    if (!BaseFitsInWidenedType<Widen<T>, B>::check(base)) {
+        return {MagRepresentationOutcome::ERR_CANNOT_FIT};
     }
 
     const auto power_result =
